@@ -2462,3 +2462,186 @@ func (c *Ctx) ruleWeightSub(xrefOnly map[string]bool) {
 		})
 	}
 }
+
+// R-MAPORDER / R-NILMAP / R-BIGRANGE: three SCALE clauses found by a seeding agent on the unchanged tree (D62-D64).
+func (c *Ctx) ruleScaleMapAndBigRange() {
+	if f := c.fn("pkg/scale", "(*encodeState).encodeMap"); f != nil {
+		c.doc("R-MAPORDER", "encodeState.encodeMap does not encode the entries in Go's map iteration order (no reflect.MapIter.Next / MapRange drives the marshal calls) and sorts the keys first: equal maps must have one, canonical encoding")
+		iter, sorted := false, false
+		eachInstr(f, func(_ *ssa.BasicBlock, _ int, in ssa.Instruction) {
+			if call, ok := in.(*ssa.Call); ok {
+				nm := calleeName(&call.Call)
+				if nm == "(*reflect.MapIter).Next" || nm == "(reflect.Value).MapRange" {
+					iter = true
+				}
+				if strings.HasPrefix(nm, "sort.") || strings.Contains(nm, "slices.Sort") {
+					sorted = true
+				}
+			}
+		})
+		c.ob("R-MAPORDER", "encodeMap:sorted-keys", f.Pos(), sorted && !iter, "the map entries are marshalled in Go's (randomised) iteration order: the same map has different encodings from one call to the next")
+	}
+	if f := c.fn("pkg/scale", "(*decodeState).decodeMap"); f != nil {
+		c.doc("R-NILMAP", "decodeState.decodeMap allocates the destination (reflect.MakeMap) when it is nil before the first SetMapIndex: decoding into a declared-but-nil map must not panic")
+		var mk, set ssa.Instruction
+		eachInstr(f, func(_ *ssa.BasicBlock, _ int, in ssa.Instruction) {
+			if call, ok := in.(*ssa.Call); ok {
+				switch calleeName(&call.Call) {
+				case "reflect.MakeMap", "reflect.MakeMapWithSize":
+					mk = in
+				case "(reflect.Value).SetMapIndex":
+					set = in
+				}
+			}
+		})
+		c.ob("R-NILMAP", "decodeMap:allocates-nil-destination", f.Pos(), mk != nil && set != nil && instrReaches(mk, set), "decodeMap assigns into the destination map without ever allocating it: `var m map[K]V; Unmarshal(enc, &m)` panics (assignment to entry in nil map)")
+	}
+	if f := c.fn("pkg/scale", "(*encodeState).encodeBigInt"); f != nil {
+		c.doc("R-BIGRANGE", "encodeState.encodeBigInt refuses what a compact integer cannot hold: a negative value (a Sign() test on a rejecting edge) and a magnitude of more than 67 bytes (the conversion uint8(numBytes-4) is dominated by a bound on numBytes), instead of emitting a wrapped length prefix")
+		neg := false
+		for _, b := range f.Blocks {
+			iff := ifOf(b)
+			if iff == nil {
+				continue
+			}
+			subj, op, k, ok := cmpWithConst(iff.Cond)
+			if !ok || k != 0 {
+				continue
+			}
+			if cl, ok := subj.(*ssa.Call); ok && calleeName(&cl.Call) == "(*math/big.Int).Sign" && op == token.LSS && blockRejects(b.Succs[0]) {
+				neg = true
+			}
+		}
+		c.ob("R-BIGRANGE", "encodeBigInt:rejects-negative", f.Pos(), neg, "a negative big integer is encoded silently (as the low bits of its two's complement): -1 becomes the single byte 0xfc")
+		n := 0
+		eachInstr(f, func(b *ssa.BasicBlock, _ int, in ssa.Instruction) {
+			cv, ok := in.(*ssa.Convert)
+			if !ok || cv.Type().String() != "uint8" {
+				return
+			}
+			bo, ok := cv.X.(*ssa.BinOp)
+			if !ok || bo.Op != token.SUB {
+				return
+			}
+			if _, isLen := lenOf(bo.X); !isLen {
+				return
+			}
+			n++
+			bounded := false
+			for _, fc := range factsAt(b) {
+				subj, op, k, ok := cmpWithConst(fc.cond)
+				if !ok || !sameValue(subj, bo.X) {
+					continue
+				}
+				if !fc.truth {
+					op = negOp(op)
+				}
+				if (op == token.LEQ && k <= 67) || (op == token.LSS && k <= 68) {
+					bounded = true
+				}
+			}
+			c.ob("R-BIGRANGE", fmt.Sprintf("encodeBigInt:length-prefix-bounded#%d", n), cv.Pos(), bounded, "the byte count of the magnitude is narrowed to the six length bits without a bound: 2^536 (68 bytes) gets the prefix of a 4-byte number")
+		})
+		if n == 0 {
+			c.ob("R-BIGRANGE", "encodeBigInt:length-prefix-bounded", f.Pos(), false, "no length-prefix conversion found (anchor changed)")
+		}
+	}
+}
+
+// R-BRANCHACCUM: a vote-graph node introduced on a shared edge accumulates the votes of every descendant.
+func (c *Ctx) ruleBranchAccum() {
+	sp := c.ssaPkg(fgDir)
+	if sp == nil {
+		return
+	}
+	c.doc("R-BRANCHACCUM", "VoteGraph.introduceBranch: inside the loop over the descendants that contain the new ancestor, the new node's cumulative vote receives each descendant's cumulative vote (an Add call per iteration), and for every descendant that is appended to the new node's descendants list: a node on an edge shared by several forks must carry the votes of all of them, whatever the order of insertion")
+	n := 0
+	for _, f := range allFuncs(c, sp) {
+		if f.Parent() != nil || !strings.HasPrefix(f.Name(), "introduceBranch") {
+			continue
+		}
+		n++
+		loops := loopsOf(f)
+		var adds, appends []ssa.Instruction
+		eachInstr(f, func(b *ssa.BasicBlock, _ int, in ssa.Instruction) {
+			inLoop := false
+			for _, l := range loops {
+				if l[b] {
+					inLoop = true
+				}
+			}
+			if !inLoop {
+				return
+			}
+			call, ok := in.(*ssa.Call)
+			if !ok {
+				return
+			}
+			if call.Call.IsInvoke() && call.Call.Method.Name() == "Add" {
+				adds = append(adds, in)
+			}
+			if bi, ok := call.Call.Value.(*ssa.Builtin); ok && bi.Name() == "append" && strings.Contains(call.Type().String(), "[]Hash") {
+				// newEntry.descendants = append(newEntry.descendants, descendant): the result is stored into the
+				// descendants field of the entry under construction (the `entry` field of the local holder)
+				for _, r := range *call.Referrers() {
+					st, ok := r.(*ssa.Store)
+					if !ok {
+						continue
+					}
+					fa, ok := st.Addr.(*ssa.FieldAddr)
+					if !ok || fieldVar(fa) == nil || fieldVar(fa).Name() != "descendants" {
+						continue
+					}
+					if fa2, ok := fa.X.(*ssa.FieldAddr); ok && fieldVar(fa2) != nil && fieldVar(fa2).Name() == "entry" {
+						appends = append(appends, in)
+					}
+				}
+			}
+		})
+		ok := len(adds) > 0 && len(appends) > 0
+		// every registration of a descendant is followed (or preceded in the same iteration) by an accumulation:
+		// the Add is in the same block as the append, or post-dominates it within the loop body
+		for _, ap := range appends {
+			paired := false
+			for _, ad := range adds {
+				if ad.Block() == ap.Block() || instrDominates(ap, ad) || instrDominates(ad, ap) {
+					paired = true
+				}
+			}
+			if !paired {
+				ok = false
+			}
+		}
+		c.ob("R-BRANCHACCUM", shortFn(f)+":descendant-votes-accumulated", f.Pos(), ok,
+			fmt.Sprintf("introduceBranch registers a descendant under the new node without adding that descendant's cumulative vote to the new node (%d Add calls, %d registrations in the loop): a node on an edge shared by two forks then carries only the first fork's votes and the GHOST depends on the order of the precommits", len(adds), len(appends)))
+	}
+	if n == 0 {
+		c.ob("R-BRANCHACCUM", "introduceBranch", token.NoPos, false, "introduceBranch not found (anchor changed)")
+	}
+}
+
+// R-FRESHSTRUCT: a struct is decoded into a zero value, never into a wholesale copy of the destination.
+func (c *Ctx) ruleFreshStruct() {
+	f := c.fn("pkg/scale", "(*decodeState).decodeStruct")
+	if f == nil {
+		return
+	}
+	c.doc("R-FRESHSTRUCT", "decodeState.decodeStruct builds the decoded value from a zero value (reflect.New) and copies over from the destination only individual exported fields (Field(i).Set): the whole destination is never Set into the temporary, so unexported state of the destination — e.g. the hash a types.Header caches — cannot survive a decode and describe the previous content")
+	n, bad := 0, ""
+	eachInstr(f, func(_ *ssa.BasicBlock, _ int, in ssa.Instruction) {
+		call, ok := in.(*ssa.Call)
+		if !ok || calleeName(&call.Call) != "(reflect.Value).Set" {
+			return
+		}
+		n++
+		recv := call.Call.Args[0]
+		// the temporary itself: Elem() of a reflect.New result (a per-field Set goes through Field(i) instead)
+		if el, ok := recv.(*ssa.Call); ok && calleeName(&el.Call) == "(reflect.Value).Elem" {
+			if nw, ok := el.Call.Args[0].(*ssa.Call); ok && calleeName(&nw.Call) == "reflect.New" {
+				bad = c.pos(call.Pos())
+			}
+		}
+	})
+	c.ob("R-FRESHSTRUCT", "decodeStruct:temp-starts-from-zero", f.Pos(), n > 0 && bad == "",
+		"the temporary struct is initialised with a copy of the whole destination (at "+bad+"): unexported fields are carried over, so a types.Header decoded into a previously used value keeps the old cached hash and Hash() no longer is BLAKE2b-256 of the header's encoding")
+}
